@@ -670,6 +670,12 @@ class FnVerifier:
         env.update(kwargs)
         if recv is not None:
             env["recv"] = recv
+        if ext.allowed_kwargs is not None and not R.pure:
+            extra = sorted(k for k in kwargs if k not in ext.allowed_kwargs)
+            if extra:
+                self.add_obligation(R, "callpre", "%s.keyword-%s-changes-the-declared-behaviour" % (name, extra[0]), z3.BoolVal(False),
+                                    clause="%s is only specified for the keyword arguments %s; called with %s" % (name, list(ext.allowed_kwargs), extra),
+                                    line=getattr(node, "lineno", None))
         for rq in ext.requires:
             g = self.spec_in_env(R, rq, env, old_heap=None)
             self.add_obligation(R, "callpre", "%s.%s" % (name, rq[:24]), R.truthy(g), clause=rq, line=getattr(node, "lineno", None))
@@ -798,7 +804,11 @@ class FnVerifier:
             R.assume(R.truthy(g))
         # termination of recursion: the callee's measure (in its own parameters) is below ours
         if cc is self.c:
-            if not cc.variant:
+            if cc.variant and str(cc.variant).startswith("assumed:"):
+                note = ("termination of %s" % cname, "NOT VERIFIED - " + str(cc.variant)[8:].strip())
+                if note not in self.assumed:
+                    self.assumed.append(note)
+            elif not cc.variant:
                 self.add_obligation(R, "decreases", cname, z3.BoolVal(False), clause="recursive call without a variant", line=getattr(node, "lineno", None))
             else:
                 v1 = R.to_int(self.spec_in_env(R, cc.variant, env))
@@ -958,7 +968,7 @@ class FnVerifier:
                 ov = self.spec_in_env(R, ox, R.base_env)
                 cell = R.heap[ov.z]
                 cell.ghost = dict(cell.ghost or {}, order_independent=True)
-            R.entry_variant = R.to_int(self.spec_in_env(R, c.variant, R.base_env)) if c.variant else None
+            R.entry_variant = R.to_int(self.spec_in_env(R, c.variant, R.base_env)) if c.variant and not str(c.variant).startswith("assumed:") else None
             R.n_requires = len(R.pc)
             for gname, gsrc in c.ghost_inputs.items():
                 gv = self.spec_in_env(R, gsrc, R.base_env)
